@@ -45,6 +45,9 @@ def run_proofs(rep: Report, mods: List[str], keys: List[str], replays: Dict[str,
             if r["status"] == "engine-error":
                 rep.errors.append("pyvc engine error on %s: %s" % (key, r.get("detail", "")[-600:]))
             continue
+        for ip in r["info"].get("inconsistent_paths", []):
+            rep.errors.append("inconsistent assumptions: the ground expansion of the facts on path %s of %s is unsatisfiable (every obligation on it would be vacuous)" % (ip, key))
+        rep.extra["ground_consistency_canaries"] = rep.extra.get("ground_consistency_canaries", 0) + r["info"].get("ground_canaries", 0)
         for vp in r["info"].get("vacuous_paths", []):
             rep.errors.append("vacuous obligation (every path condition it is checked under is contradictory; canary `False` proved): %s" % vp)
         rep.extra["canaries_checked"] = rep.extra.get("canaries_checked", 0) + r["info"].get("canaries", 0)
